@@ -161,7 +161,15 @@ impl AsRef<[u8]> for FlakyOwner {
             }
             1 => panic!("owner as_ref panics"),
             2 => &self.a[..self.a.len() / 2],
-            _ => &[],
+            3 => &[],
+            _ => {
+                // first answer short, later answers long
+                if c == 0 {
+                    &self.b
+                } else {
+                    &self.a
+                }
+            }
         }
     }
 }
@@ -290,7 +298,7 @@ pub fn consumer(entry: usize, plan: &Plan, aux: usize) -> &'static str {
             "into_iter"
         }
         19 => {
-            let o = FlakyOwner { a: vec![1; 20], b: vec![2; 3], calls: Cell::new(0), mode: (aux % 4) as u8 };
+            let o = FlakyOwner { a: vec![1; 20], b: vec![2; 3], calls: Cell::new(0), mode: (aux % 5) as u8 };
             let b = Bytes::from_owner(o);
             let c = b.clone();
             let s = b.slice(..b.len() / 2);
